@@ -388,7 +388,7 @@ func diffMaps(before, after map[string][]byte) diffT {
 	return d
 }
 
-func sameSet(got []string, want map[string]bool) string {
+func sameSet(got []string, want map[string]bool, missWord, extraWord string) string {
 	g := map[string]bool{}
 	for _, k := range got {
 		g[k] = true
@@ -396,12 +396,12 @@ func sameSet(got []string, want map[string]bool) string {
 	var msgs []string
 	for k := range want {
 		if !g[k] {
-			msgs = append(msgs, "missing "+k)
+			msgs = append(msgs, missWord+" "+k)
 		}
 	}
 	for k := range g {
 		if !want[k] {
-			msgs = append(msgs, "unexpected "+k)
+			msgs = append(msgs, extraWord+" "+k)
 		}
 	}
 	sort.Strings(msgs)
@@ -893,7 +893,7 @@ func (r *runner) runOp(op opSpec) error {
 		}
 		return nil
 	}
-	if s := sameSet(removed, wantRemoved); s != "" {
+	if s := sameSet(removed, wantRemoved, "still there:", "must not be removed:"); s != "" {
 		return fmt.Errorf("%s: objects removed from the metadata stores differ from the expected set: %s", what, s)
 	}
 	strict := added[:0:0]
@@ -902,7 +902,7 @@ func (r *runner) runOp(op opSpec) error {
 			strict = append(strict, k)
 		}
 	}
-	if s := sameSet(strict, wantAdded); s != "" {
+	if s := sameSet(strict, wantAdded, "not created:", "must not be created:"); s != "" {
 		return fmt.Errorf("%s: objects added to the metadata stores differ from the expected set: %s", what, s)
 	}
 	for _, k := range changed {
